@@ -495,6 +495,41 @@ def closure_parent(crate, E, fa):
     return p
 
 
+_FIELD_INV = None
+_FIELD_INV_OK = {}
+
+
+def field_nonzero(crate, E, fa, op):
+    """(reason) when the operand is a read of a struct field listed as non-zero in
+    spec/field_invariants.json and the guard establishing that still holds; else None."""
+    global _FIELD_INV
+    if _FIELD_INV is None:
+        with open(os.path.join(VERIF, "spec", "field_invariants.json")) as fh:
+            _FIELD_INV = json.load(fh)
+    pl = op_place(op)
+    for _ in range(10):
+        if pl is None:
+            return None
+        fields = [e for e in pl["p"] if isinstance(e, dict) and "f" in e]
+        if fields:
+            last = pl["p"][-1]
+            if not (isinstance(last, dict) and "f" in last):
+                return None
+            for inv in _FIELD_INV["nonzero"]:
+                if last.get("o") == inv["adt"] and last.get("n") == inv["field"]:
+                    gk = (id(crate), json.dumps(inv["guard"], sort_keys=True))
+                    if gk not in _FIELD_INV_OK:
+                        _FIELD_INV_OK[gk] = check_guard(None, crate, E, inv["guard"])
+                    ok, gtxt = _FIELD_INV_OK[gk]
+                    return "%s [guard: %s]" % (inv["reason"], gtxt) if ok else None
+            return None
+        ds = [d for d in fa.defs().get(pl["l"], []) if d[2] != "partial"]
+        if len(ds) != 1 or ds[0][2] != "assign" or ds[0][3]["k"] not in ("use", "cast"):
+            return None
+        pl = op_place(ds[0][3]["op"])
+    return None
+
+
 def discharge(crate, E, site):
     """Return (tag, explanation) or None."""
     fa = E.fa(site.fn)
@@ -588,6 +623,9 @@ def discharge(crate, E, site):
                 if dv is not None and dv != 0:
                     return "DIV-CONST", "division by the non-zero constant %d" % dv
                 site.data["divisor"] = r[1]["a"]
+                why = field_nonzero(crate, E, fa, r[1]["a"])
+                if why:
+                    return "FIELD-NONZERO", "the divisor is a field that is never zero: " + why
             return None
         if m["kind"] == "BoundsCheck":
             ci = const_eval(fa, m["index"])
@@ -675,6 +713,9 @@ def discharge(crate, E, site):
             c = const_eval(fa, t["args"][1])
             if c is not None and c > 0:
                 return "CONST", "chunk size is the non-zero constant %d" % c
+            why = field_nonzero(crate, E, fa, t["args"][1])
+            if why:
+                return "FIELD-NONZERO", "the chunk size is a field that is never zero: " + why
             return None
         if nm == "clamp":
             mn, mx = const_eval(fa, t["args"][1]), const_eval(fa, t["args"][2])
@@ -1085,7 +1126,14 @@ def run(ctx):
     def coarse(key):
         fn_, kind_, desc_ = key.split("|")[0], key.split("|")[1], "|".join(key.split("|")[2:-1])
         fn_ = re.sub(r"(::\{closure#\d+\})+$", "", fn_)
-        return fn_, kind_, desc_.split("(", 1)[0]
+        head = desc_.split("(", 1)[0]
+        # indexing is one operation whether it is spelled as an Index impl call (Vec, HashMap)
+        # or compiled to a bounds check (slice, array)
+        if kind_ == "assert:BoundsCheck" or (kind_ == "call" and head.rsplit("::", 1)[-1] in ("index", "index_mut")):
+            return fn_, "index", "index"
+        if kind_ == "call":
+            head = head.rsplit("::", 1)[-1]
+        return fn_, kind_, head
     live_keys = {x.key for x in sites}
     stale_by = {}
     for k_ in sorted(entries):
